@@ -1492,7 +1492,11 @@ MANIFEST_ENTRY = {
              'argument (s, cs, cns, coefs, cm0, ams, bms and their inner lists, nms and its rows, coefs of the packer, modes of '
              'sum_of_2d_modes and lstsq; weights as list / tuple / ndarray only, as documented) as list / tuple / ndarray / generator / '
              'iterator / map / zip / chain / reversed / dict views / deque, result = result for the same items as a list (item seqarg); '
-             'gen_iterable_arguments: translated fact that these arguments are materialised first or read exactly once.'),
+             'gen_iterable_arguments: translated fact that these arguments are materialised first or read exactly once.'
+             ' Before recognition the translator normalises the source soundly (tools/pysym.py): same-module private helpers without '
+             'loops are inlined (helpers with branches by forking paths), view aliases of table rows and hoisted index arithmetic are '
+             'propagated, locals are expanded by path-wise symbolic execution or renamed by role, conditional expressions are '
+             'treated as if/else; a shape that is still not understood degrades the tie (TIE-DEGRADED), it never turns it red.'),
     'note': ('partial in this sense: the link "Python loop with these bounds fills exactly these entries" is checked by execution, not '
              'proved; np.linalg.lstsq and np.tensordot are trusted; the exact oracle is validated per reply, not proved; the value '
              'routines are compared, not translated; f/g/h (square roots, factorials) are parameters of the theorems and numbers taken '
